@@ -1,4 +1,5 @@
 import Receptor.Model.Bridge
+import Receptor.Proofs.StreamEnd
 import Receptor.Generated.Facts
 /-!
 # C03 — mesh streams are reliable ordered byte pipes (the part that is Receptor's own code)
@@ -90,3 +91,118 @@ theorem C03_witness_final_chunk_lost :
   decide
 
 end Receptor.Bridge
+
+namespace Receptor.StreamEnd
+open Receptor.Bridge
+
+/-- the listener's first-byte check as the source has it (regenerated fact) -/
+def acceptOfSource : List ReadRes → Accept :=
+  accept (decide (Receptor.Facts.stream_first_byte = "dial:write(0);accept:read(1);byte-with-eof:accepted;check(n==1,byte==0)"))
+
+theorem acceptOfSource_eq : acceptOfSource = accept true := by
+  have : decide (Receptor.Facts.stream_first_byte = "dial:write(0);accept:read(1);byte-with-eof:accepted;check(n==1,byte==0)") = true := by
+    decide +kernel
+  unfold acceptOfSource
+  rw [this]
+
+/-- **accept_exact.** Whatever the application wrote after dialling — nothing at all included — and however
+the stream presents `0 :: d` to the listener (any chunk sizes, the end of the stream arriving with the last
+bytes or on its own), the listener accepts the stream and hands the application a stream that carries
+exactly `d`, followed by the end of the stream. -/
+theorem accept_exact (d : Bytes) (rs : List ReadRes) (h : Delivers rs (dialled d)) :
+    ∃ rest, acceptOfSource rs = .accepted rest ∧ Delivers rest d := by
+  rw [acceptOfSource_eq]
+  obtain ⟨r, rest, hr, hlen, hE, hN⟩ := readK_step 1 (Nat.le_refl 1) h
+  refine ⟨rest, ?_, ?_⟩
+  · cases hre : r.err with
+    | true =>
+      obtain ⟨hd, _⟩ := hE hre
+      have hd0 : r.data = [0] := by
+        rw [hd] at hlen ⊢
+        simp only [dialled, List.length_cons] at hlen
+        have : d = [] := List.eq_nil_of_length_eq_zero (by omega)
+        rw [this, dialled]
+      simp [accept, hr, hre, hd0]
+    | false =>
+      obtain ⟨hne, w', hw, _⟩ := hN hre
+      have hd0 : r.data = [0] := by
+        cases hrd : r.data with
+        | nil => exact absurd hrd hne
+        | cons x t =>
+          rw [hrd] at hlen hw
+          simp only [List.length_cons] at hlen
+          have ht : t = [] := List.eq_nil_of_length_eq_zero (by omega)
+          subst ht
+          simp only [dialled, List.cons_append, List.nil_append, List.cons.injEq] at hw
+          rw [← hw.1]
+      simp [accept, hr, hre, hd0]
+  · cases hre : r.err with
+    | true =>
+      obtain ⟨hd, hrest⟩ := hE hre
+      rw [hd] at hlen
+      simp only [dialled, List.length_cons] at hlen
+      have : d = [] := List.eq_nil_of_length_eq_zero (by omega)
+      rw [this, hrest]
+      exact delivers_eofOnly
+    | false =>
+      obtain ⟨hne, w', hw, hdl⟩ := hN hre
+      cases hrd : r.data with
+      | nil => exact absurd hrd hne
+      | cons x t =>
+        rw [hrd] at hlen hw
+        simp only [List.length_cons] at hlen
+        have ht : t = [] := List.eq_nil_of_length_eq_zero (by omega)
+        subst ht
+        simp only [dialled, List.cons_append, List.nil_append, List.cons.injEq] at hw
+        rw [hw.2]
+        exact hdl
+
+/-- **stream_end_to_end.** Dial, write `d` with any write boundaries, close the writing side; on the other
+side accept and read with buffers of any sizes: the reads return consecutive slices of `d`, a read that
+reports the end of the stream comes only after all of `d`, and `|d| + 1` reads always reach it. -/
+theorem stream_end_to_end (d : Bytes) (rs : List ReadRes) (ks : List Nat) (h : Delivers rs (dialled d))
+    (hks : ∀ k ∈ ks, 1 ≤ k) :
+    ∃ rest, acceptOfSource rs = .accepted rest ∧
+      (∃ tail, d = (readMany ks rest).flatMap (·.data) ++ tail) ∧
+      (hasErr (readMany ks rest) = true → (readMany ks rest).flatMap (·.data) = d) ∧
+      (d.length + 1 ≤ ks.length → hasErr (readMany ks rest) = true) := by
+  obtain ⟨rest, ha, hd⟩ := accept_exact d rs h
+  exact ⟨rest, ha, readMany_slices ks rest d hks hd⟩
+
+/-- **relay_chain_exact.** Through any number of relays in a row (a `connect` session, a TCP or Unix-socket
+proxy on either side of the mesh stream), each reading a faithful stream of what the previous one wrote,
+the last one has written exactly the original bytes. -/
+theorem relay_chain_exact : ∀ (stages : List (List ReadRes)) (w : Bytes), ChainDelivers stages w → chainOut stages w = w := by
+  intro stages
+  induction stages with
+  | nil => intro w _; rfl
+  | cons rs more ih =>
+    intro w h
+    obtain ⟨hd, hmore⟩ := h
+    have hw : (bridgeHalf true {} rs {}).written = w := by
+      rw [(bridge_copies_exactly rs).1]; exact hd.1
+    simp only [chainOut]
+    rw [ih _ hmore, hw]
+
+/-- **accepted_then_relayed.** The pipeline of the `connect` command and of the proxies: the stream is
+accepted and a relay copies it on — exactly the application's bytes arrive, then the destination is closed. -/
+theorem accepted_then_relayed (d : Bytes) (rs : List ReadRes) (h : Delivers rs (dialled d)) :
+    ∃ rest, acceptOfSource rs = .accepted rest ∧ (bridgeHalf true {} rest {}).written = d
+      ∧ (bridgeHalf true {} rest {}).closed = true := by
+  obtain ⟨rest, ha, hd⟩ := accept_exact d rs h
+  obtain ⟨h1, h2⟩ := bridge_copies_exactly rest
+  exact ⟨rest, ha, by rw [h1]; exact hd.1, by rw [h2]; exact hd.2.1⟩
+
+/-- the hypotheses are satisfiable by non-trivial streams: three chunkings of `0 :: "hi!"` -/
+example : Delivers [⟨[0, 104], false⟩, ⟨[105, 33], true⟩] (dialled [104, 105, 33])
+    ∧ Delivers [⟨[0], false⟩, ⟨[104, 105, 33], false⟩, ⟨[], true⟩] (dialled [104, 105, 33])
+    ∧ Delivers [⟨[0], true⟩] (dialled []) := by
+  simp [Delivers, WF, upToFirstErr, hasErr, dialled]
+
+/-- the defect repaired by e49e1d9, as a witness on the model: a listener that treats "byte together with
+the end of the stream" as a read error refuses a stream whose dialler wrote nothing -/
+theorem C03_witness_empty_dial_refused :
+    accept false [⟨[0], true⟩] = .refusedReadError ∧ accept true [⟨[0], true⟩] = .accepted eofOnly := by
+  decide
+
+end Receptor.StreamEnd
